@@ -24,7 +24,8 @@ from pbt.core import Collector, HarnessError, mksig
 ID = "C16"
 RULE = ("terms: random expressions over all composite term kinds with OLD/OTHER fields; statements: structured generator + one explicit template per clause "
         "slot, each under six classes; table pairs plain/plain, plain/aliased, aliased/plain, schema-qualified. Non-trivial = OLD occurs below the top node "
-        "(terms) or in >= 2 clause slots (statements); distinct = distinct (program, table pair).")
+        "(terms) or in >= 2 clause slots (statements); distinct = distinct (program, table pair). Also: every Term subclass of the live package (instance on table t, token-level rename oracle), "
+        "sources that are themselves queries / set operations over OLD, and one more select() on the result compared with the same call on the fresh construction.")
 ASSUMPTIONS = [
     "table equality is the library's (name, schema, alias): replacing Table('t') also replaces an equal distinct instance and does not replace t AS x",
     "new_table=None is only meaningful for terms and is not generated for statements",
